@@ -229,6 +229,25 @@ def _run(ctx):
             isinstance(n.ast, ast.Return)
     r4.check(ok, ctx.construct(ge), 'a sub-workflow does not delegate the '
              'environment lookup to its root execution', ctx.loc(ge))
+    # ... whenever it has a root, whatever it carries itself (an env passed
+    # down as an undeclared input or set by a rerun must not shadow the root's)
+    for n, c in rec:
+        facts = sorted((norm(a), t) for a, t in U.guard_atoms(cfg, n))
+        r4.check(facts == [('wf_ex', True), ('wf_ex.root_execution_id', True)],
+                 ctx.construct(ge, extra='delegates whenever there is a '
+                               'root'),
+                 'the delegation to the root execution is additionally '
+                 'conditioned (%s): a descendant that carries an env of its '
+                 'own evaluates against that one' % facts, ctx.loc(ge, c))
+    own = [x for x in cfg.nodes if x.kind == 'stmt' and
+           isinstance(x.ast, ast.Return) and
+           U.phas(x.ast.value, "{'__env': ___}")]
+    for x in own:
+        facts = sorted((norm(a), t) for a, t in U.guard_atoms(cfg, x))
+        r4.check(('wf_ex.root_execution_id', False) in facts,
+                 ctx.construct(ge, extra='own env only for a root'),
+                 'an execution that has a root answers with its own env',
+                 ctx.loc(ge, x.ast))
 
     # ---- R6 the post-commit queue that carries the hand-off -------------------
     r6 = ctx.rule('R6', 'operations queued for after the commit (the '
@@ -313,5 +332,19 @@ def _resolution_rule(ctx):
              ctx.construct(f, extra='relative name is <workbook>.<name>'),
              'the workbook-relative name is not "<workbook>.<child name>"',
              ctx.loc(f, rel[0]))
+    # the workbook name is what is left of the parent's full name once the
+    # parent's own (spec) name is taken off: it depends on both
+    wbs = U.pfind(full, "'%s.%s' % (__wb, " + P[3] + ")")
+    dep = set()
+    for _m, b in wbs:
+        dep |= U.names_in(b['__wb'])
+    r7.check({P[0], P[1]} <= dep,
+             ctx.construct(f, extra='workbook = parent name minus parent '
+                           'spec name'),
+             'the workbook name is derived from %s only: for a workbook '
+             'whose name contains a dot (or a parent name with more '
+             'segments) the relative candidate is wrong and resolution '
+             'silently falls through to a global workflow of the same short '
+             'name' % sorted(dep), ctx.loc(f, rel[0]))
     t.undecided(r7, 'whether the parent belongs to a workbook and what the '
                 'two lookups found')
